@@ -33,7 +33,7 @@ TUpdateOK ==
     /\ Ev.res = "ok"
     /\ RowIds(Ev.rows) = reg /\ Len(Ev.rows) = Cardinality(reg)
     /\ \A i \in DOMAIN Ev.rows : Ev.rows[i][2] >= 0 /\ Ev.rows[i][2] < Ev.size /\ Ev.rows[i][3] = TRUE
-    /\ \A i, j \in DOMAIN Ev.rows : i # j => Ev.rows[i][2] # Ev.rows[j][2]
+    /\ Cardinality({Ev.rows[i][2] : i \in DOMAIN Ev.rows}) = Len(Ev.rows)
     /\ ok' = TRUE /\ UNCHANGED reg
 TUpdateFail ==
     /\ IsEvent("hq")
